@@ -994,7 +994,7 @@ def gen_ft(ctx: Ctx, scale: float, rng):
 
 # per-type status of the Lean side (mirrors C05.provedTypes / Model.modelledTypes; the oracle covers every type)
 PROVED = ["A", "AAAA", "NS", "CNAME", "PTR", "DNAME", "NSAP-PTR", "MX", "AFSDB", "RT", "KX", "LP", "PX", "SRV", "RP", "SOA", "TXT", "SPF", "AVC",
-          "NINFO", "RESINFO", "WALLET", "HINFO", "X25", "ISDN", "NAPTR", "DS", "DLV", "CDS", "TLSA", "SMIMEA", "SSHFP", "ZONEMD", "DNSKEY",
+          "NINFO", "RESINFO", "WALLET", "HINFO", "X25", "ISDN", "NAPTR", "CAA", "URI", "DS", "DLV", "CDS", "TLSA", "SMIMEA", "SSHFP", "ZONEMD", "DNSKEY",
           "CDNSKEY", "DHCID", "OPENPGPKEY", "BRID", "HHIT", "L32", "NSEC3PARAM"]
 
 
@@ -1002,8 +1002,7 @@ def type_status():
     out = {}
     for (_, _, tname, _) in TYPES:
         if tname in PROVED:
-            out[tname] = "proved (model + correspondence + parseText_printText_partial)" + (
-                "; character-strings through Token.unescape only below 0x80 (D03)" if tname in CHARSTRING_FIELDS else "")
+            out[tname] = "proved (model + correspondence + parseText_printText)"
         elif tname in MODEL:
             out[tname] = "modelled (model + correspondence; no round-trip lemma for one of its field kinds yet)"
         elif tname == "OPT":
@@ -1091,8 +1090,8 @@ def impl_of_op(op: str) -> str:
 
 
 LEVEL = {
-    "text": "Lean 4 theorems over executable models of the text codecs (dns/ipv4.py, dns/ipv6.py in full, dns.rdata._escapify, Token.unescape / unescape_to_bytes, the tokenizer as one automaton, _wordbreak chunking with concatenate_remaining_identifiers, Python int()/dns.ttl, hex and base64, name fields on top of the C01 model, the generic \\# form with its re-encode check, and a per-type schema table for 44 record classes): inet_aton(inet_ntoa(a)) = a for IPv4 and IPv6 (every zero-run / embedded-IPv4 shape), the quoted character-string round trip for all 256 octets on the octet path and below 0x80 on the code-point path (D03, with the counter-example proved), blob round trips under every lossless chunking style, the generic form of unknown and known types, and parse(print v) = v through dns.rdata.from_text for every schema type whose field kinds have a lemma (41 classes). Tied to the code by a differential correspondence check on every modelled function (print and parse direction, malformed streams) and by constants/tables regenerated from the working tree; completed by a direct round-trip / totality / encodability oracle on the implementation over all 69 implemented record classes.",
-    "note": "Trusted: Lean kernel + propext/Classical.choice/Quot.sound; the statements in lean/Props/C05.lean; the correspondence harness and its generators (differential testing bounds the tie); the implementation's base64/base32/time modules (the model's own base64 codec is proved). 25 record classes (LOC, APL, SVCB/HTTPS, NSEC/NSEC3/CSYNC, RRSIG/SIG, KEY, CERT, HIP, IPSECKEY, AMTRELAY, WKS, GPOS, NSAP, NID/L64, EUI48/64, DSYNC, TKEY, TSIG, OPT) are covered by the oracle only; CAA, URI and Chaosnet A are modelled and tied but have no round-trip lemma; name fields are proved for the configurations that do not rewrite names (no origin, or absolute names with relativize=False) and tied/oracle-checked for the others. Per-type status is written to the evidence (coverage.type_status).",
+    "text": "Lean 4 theorems over executable models of the text codecs (dns/ipv4.py, dns/ipv6.py in full, dns.rdata._escapify, Token.unescape / unescape_to_bytes, the tokenizer as one automaton, _wordbreak chunking with concatenate_remaining_identifiers, Python int()/dns.ttl, hex and base64, name fields on top of the C01 model, the generic \\# form with its re-encode check, and a per-type schema table for 44 record classes): inet_aton(inet_ntoa(a)) = a for IPv4 and IPv6 (every zero-run / embedded-IPv4 shape), the quoted character-string round trip for all 256 octets on the octet path (TXT-like types and, since the fix commits 6aa8f9c/210fbe5, HINFO/ISDN/X25/NAPTR/CAA/URI), with the code-point path get_string characterised separately (exact below 0x80, counter-example proved), blob round trips under every lossless chunking style, the generic form of unknown and known types, and parse(print v) = v through dns.rdata.from_text for every schema type whose field kinds have a lemma (43 classes). Tied to the code by a differential correspondence check on every modelled function (print and parse direction, malformed streams) and by constants/tables regenerated from the working tree; completed by a direct round-trip / totality / encodability oracle on the implementation over all 69 implemented record classes.",
+    "note": "Trusted: Lean kernel + propext/Classical.choice/Quot.sound; the statements in lean/Props/C05.lean; the correspondence harness and its generators (differential testing bounds the tie); the implementation's base64/base32/time modules (the model's own base64 codec is proved). 25 record classes (LOC, APL, SVCB/HTTPS, NSEC/NSEC3/CSYNC, RRSIG/SIG, KEY, CERT, HIP, IPSECKEY, AMTRELAY, WKS, GPOS, NSAP, NID/L64, EUI48/64, DSYNC, TKEY, TSIG, OPT) are covered by the oracle only; Chaosnet A is modelled and tied but has no round-trip lemma (octal field); name fields are proved for the configurations that do not rewrite names (no origin, or absolute names with relativize=False) and tied/oracle-checked for the others. Per-type status is written to the evidence (coverage.type_status).",
     "technique": "Lean 4 proof (escape and tokenizer automata, combinator round trips lifted over a schema table, IPv6 zero-run selection by exhaustive case analysis of the 256 zero patterns + list theory for split/join) + model-vs-implementation correspondence + direct oracle",
     "design_ref": "DESIGN.md §7 C05",
 }
